@@ -38,7 +38,7 @@ def trace (toks : List String) : String :=
   match parseHeader toks with
   | none => "bad-op"
   | some (r0, ops) =>
-    match runOps fi ofN r0 ops with
+    match runOpsM fi ofN r0 none ops with
     | none => "bad-op"
     | some r => s!"{r.st.render (fun (x : Fp) => x.val)} {renderVars r.vars} {renderBounds r.st.bounds}"
 
@@ -50,7 +50,7 @@ def eval (toks : List String) : String :=
       match parseNatList? ins with
       | none => "bad-op"
       | some inputs =>
-        match evalOps fi #[] inputs opsRev.reverse with
+        match evalOpsM fi #[] inputs [] opsRev.reverse with
         | none => "bad-op"
         | some vals => fmtHexList vals.toList
     | _ => "bad-op"
@@ -81,7 +81,7 @@ def check (toks : List String) : String :=
     | [vals] :: opsRev =>
       match parseHeader ([nr, mbl] ++ (opsRev.reverse.flatMap (fun o => ";" :: o))), parseNatList? vals with
       | some (r0, ops), some vals =>
-        match runOps fi ofN r0 ops with
+        match runOpsM fi ofN r0 none ops with
         | none => "bad-op"
         | some r =>
           let cells := adviceCells r.st
